@@ -24,7 +24,7 @@ func init() {
 		Modules: []string{"v2"},
 		Explanation: "Structural rules on the v2 identify_license tool: (R19.1) every field of a library Match is copied to the same-named field of LicenseType, and from there to Classification/readFileLines, for the same element; (R19.2) the path condition under which a match is recorded is exactly `headers or MatchType != \"Header\"` (all paths enumerated, truth table compared); " +
 			"(R19.3) the shared result list is read and appended only while holding the backend mutex for writing; (R19.4) every input file spawns exactly one task with that file's name after taking a pool token, the token is returned before the task signals completion (the channel is closed after the wait), and the error channel has room for every file; " +
-			"(R19.5) every path of main that reaches the normal return with no results passes a fatal exit, and any later fatal exit is guarded by the JSON writer's error; (R19.6) the line re-reader's scanner limit is raised to at least MaxInt32, lines are counted once per Scan and accumulated exactly for startLine <= i <= endLine; (R19.7) the library is given exactly the bytes that this call read from the named file. " +
+			"(R19.5) every path of main that reaches the normal return with no results passes a fatal exit, and any later fatal exit is guarded by the JSON writer's error; (R19.6) the line re-reader's scanner limit is raised to at least MaxInt32, lines are counted once per Scan and accumulated exactly for startLine <= i <= endLine; (R19.7) the library is given exactly the bytes that this call read from the named file; (R19.8) the result list is sorted by a comparator that is a strict total order over every field of a result, so the printed order does not depend on the order in which the concurrent tasks delivered. " +
 			"Necessary conditions of 'the CLI reports what the library finds' for all file sets, flags and -tasks values; output formatting and ordering are not decided.",
 		Run: runC19,
 	})
@@ -217,6 +217,36 @@ func runC19(c *Ctx) {
 
 	// ---- R19.6 line re-reader ----------------------------------------------------------
 	checkLineReader(c, p)
+
+	// ---- R19.8 the order of the report does not depend on the order in which the tasks delivered -------
+	if fn := p.Func(cliPkg, "main"); fn != nil {
+		oa := eng.NewOrderAnalysis(p, []*ssa.Function{fn})
+		oa.FindSorts()
+		n8 := 0
+		for _, site := range oa.Sorts {
+			if site.Value == nil || !strings.HasSuffix(core.TypeName(site.Value.Type()), "/results.LicenseTypes") {
+				continue
+			}
+			n8++
+			cmp := site.Cmp
+			ok := cmp != nil && cmp.Undecided == "" && cmp.Bad == 0 && len(cmp.NotCompared) == 0
+			why := "the comparator is a strict total order over all fields of a result"
+			if !ok {
+				switch {
+				case cmp == nil:
+					why = "the comparator of the sort cannot be resolved"
+				case cmp.Undecided != "":
+					why = "undecided: " + cmp.Undecided
+				case cmp.Bad > 0:
+					why = "the comparator is not a strict order: " + cmp.FirstBad
+				default:
+					why = "results that differ only in " + strings.Join(cmp.NotCompared, ", ") + " compare equal; sort.Sort is not stable and the results arrive in the order in which the concurrent tasks finished, so the printed order (and the order of a file's classifications in the JSON output) depends on -tasks and on the schedule"
+				}
+			}
+			c.R.Check(ok, "R19.8", "main: the results are sorted by a total order before they are printed", p.Pos(site.Call.Pos()), why, why)
+		}
+		c.R.RequireMin("R19.8", "sorts of the result list in main", n8, 1)
+	}
 }
 
 func fromMatchCall(v ssa.Value) bool {
